@@ -556,11 +556,16 @@ theorem asChar_spec {n : Nat} {s : St} : Spec (asChar n) s s (fun _ => 0) (fun _
   unfold asChar
   wp0 []
 
+theorem asEscapedChar_spec {n : Nat} {s : St} :
+    Spec (asEscapedChar n) s s (fun _ => 0) (fun _ => 0) False := by
+  unfold asEscapedChar
+  wp0 [asChar_spec]
+
 theorem decodeElispCharEscape_spec {fuel : Nat} {s : St} :
     Spec (decodeElispCharEscape fuel) s s (fun _ => 1) (fun _ => 0) (fuel ≤ s.rd.rest.length) := by
   unfold decodeElispCharEscape
   wp0 [nextOrEofChar_spec, nextOrEof_spec, decodeElispHexEscape_spec, decodeElispUniEscape_spec,
-    decodeElispOctalEscape_spec, asChar_spec, decodeUtf8Sequence_spec]
+    decodeElispOctalEscape_spec, asChar_spec, asEscapedChar_spec, decodeUtf8Sequence_spec]
 
 theorem parseElispChar_spec {fuel : Nat} {s : St} :
     Spec (parseElispChar fuel) s s (fun _ => 1) (fun _ => 0) (fuel ≤ s.rd.rest.length) := by
